@@ -69,7 +69,7 @@ func maxMatchLen(re *syntax.Regexp) int {
 // (`(?P<year>\d{4,})` lets a `dcterms.created` of twenty digits through to the panic.)
 func c07DateGroupsBounded(c *core.Check) {
 	p := c.Prog
-	r := c.Rule("R14", "toInt only sees short runs of digits: every named group of the pattern utils.w3CDateRe (a constant expression of the source, parsed here) matches at most 9 characters", 8)
+	r := c.Rule("R14", "toInt only sees short runs of digits: every named group of the pattern utils.w3CDateRe (a constant expression of the source, parsed here) matches at most 9 characters", 6)
 	init := p.VarInit("utils", "w3CDateRe")
 	call, ok := init.(*ast.CallExpr)
 	if !ok || len(call.Args) != 1 {
